@@ -103,7 +103,10 @@ impl Board {
         let iterable = self.legals();
 
         let mut result: usize = 0;
-        if depth == 1 {
+        if depth == 0 {
+            // a position is its own single leaf at depth 0
+            1
+        } else if depth == 1 {
             iterable.len()
         } else {
             let mut next_board = Board::standard();
